@@ -400,6 +400,7 @@ impl World {
             .map(|t| match t.as_str() {
                 "CSD" => SignedEntityTypeDiscriminants::CardanoStakeDistribution,
                 "CDB" => SignedEntityTypeDiscriminants::CardanoDatabase,
+                "CTX" => SignedEntityTypeDiscriminants::CardanoTransactions,
                 other => panic!("unknown entity type {other}"),
             })
             .collect();
